@@ -1,0 +1,31 @@
+//go:build verif
+
+// Contracts for the deductive verifier in /verif (govc). This file contains
+// comments only and is compiled only under the "verif" build tag.
+
+package lists
+
+/*@
+// ---------------------------------------------------------------- C16 (Stack)
+// The abstract sequence of a Stack is the slice itself: bottom at index 0, top at the end.
+
+func Stack.Push
+  property C16
+  requires s != nil
+  ensures[len]  len(*s) == old(len(*s)) + 1
+  ensures[top]  (*s)[len(*s) - 1] == value
+  ensures[rest] forall k :: 0 <= k && k < old(len(*s)) ==> (*s)[k] == old((*s)[k])
+  assigns *s, elems(*s, 0, len(*s) + 1)
+
+func Stack.Pop
+  property C16
+  ensures[empty]    (s == nil || old(len(*s)) == 0) ==> !result1 && result0 == zero(T) && (s != nil ==> len(*s) == 0)
+  ensures[nonempty] s != nil && old(len(*s)) > 0 ==> result1 && result0 == old((*s)[len(*s) - 1]) && len(*s) == old(len(*s)) - 1 && base(*s) == old(base(*s)) && off(*s) == old(off(*s))
+  ensures[rest]     s != nil ==> (forall k :: 0 <= k && k < len(*s) ==> (*s)[k] == old((*s)[k]))
+  assigns *s
+
+func Stack.Peek
+  property C16
+  ensures[empty]    (s == nil || len(*s) == 0) ==> !result1 && result0 == zero(T)
+  ensures[nonempty] s != nil && len(*s) > 0 ==> result1 && result0 == (*s)[len(*s) - 1]
+@*/
